@@ -8,6 +8,12 @@ ENGINES = [
 ]
 NOT_APPLICABLE = {}
 CLAIMED = {
+ "C11": {
+  "engine": "tlc + csl-conform (spec/sys/Address.tla, spec/mc/MC_Address.tla, spec/trace/Trace_Address.tla; zlib.crc32 digest oracle)",
+  "technique": "the address format transcribed as a total classification function in TLA+ (header bits, exact lengths, pointer variable-length naturals over BigNat, Byron CBOR envelope parsed by CBOR.tla); TLC checks totality and ToBytes.Classify = id on the model and enumerates the structural lattice; every case is handed to the strict parser and, embedded in a legacy and a map-form output, to the lenient path of the real code; TLC compares kind, network, credentials, pointer triple, bytes and round trips with its own classification; Byron checksums are evaluated by zlib on the spec-extracted payload",
+  "text": "Bounded-exhaustive over 256 headers x lengths 0..80 x 4-6 content fills plus pointer encodings at limb boundaries (about 85k cases quick) and random Shelley/Byron addresses with envelope mutations and all attribute combinations.",
+  "note": "Trusted: TLC, Address.tla (from the Shelley CDDL comment in the repository and CIP-19), CBOR.tla, zlib.crc32, harness logging (--selftest). Bech32/Base58 text forms are round-tripped through the library, not predicted. Known finding (not repairable with the suite unedited, see known_findings.json): the lenient embedded path decodes tailed and non-minimal pointer addresses instead of keeping them verbatim.",
+ },
  "C09": {
   "engine": "tlc + csl-conform (spec/trace/Trace_TxBuilder.tla ScriptChecks, spec/lib/LedgerRules.tla script rules, CBOR.tla; harness builder driver --plutus; hashlib digest oracle)",
   "technique": "for every transaction built after calc_script_data_hash as last script-related call, TLC assembles the ledger's script-integrity preimage from the emitted witness set (redeemer span, datum span, language views of exactly the versions in use, encoded by the specification incl. the PlutusV1 double encoding and canonical key order) and the auxiliary-data span; Blake2b-256 is uninterpreted in TLA+, each (preimage, digest-found-in-body) pair is evaluated by hashlib; freshness of the hash is state of the trace spec",
